@@ -2,7 +2,7 @@
     Pinned statements only; proofs in Proofs/BuildFacts.v and Proofs/MachineFacts.v. *)
 Require Import CF.Proofs.Tac CF.Model.Omics CF.Model.Pair CF.Model.Text CF.Model.Records CF.Model.Reader CF.Model.Sections CF.Model.Machine
   CF.Proofs.OmicsFacts CF.Proofs.RecordsFacts CF.Proofs.SectionsFacts CF.Spec.Align CF.Proofs.MachineFacts CF.Proofs.LiftProps
-  CF.Proofs.BuildFacts CF.Proofs.Examples CF.Proofs.FileFacts CF.Proofs.EolFacts.
+  CF.Proofs.BuildFacts CF.Proofs.Examples CF.Proofs.FileFacts CF.Proofs.EolFacts CF.Proofs.Utf8Facts.
 
 (** A machine is built from a stream of line reads only if the whole stream is grammatical (the grammar
     yields no error: every chain structurally complete, no blank/header/junk inside a section, no data before
@@ -37,15 +37,16 @@ Theorem C03_grammatical : forall rs f, spec_sections None 0 rs = map Ok f -> bui
 Proof. exact build_reads_of_grammar. Qed.
 Print Assumptions C03_grammatical.
 
-(** Every canonical file is accepted: the bytes obtained by re-serialising sections of the shape the
-    iterator yields (header line, data lines, blank line; LF or CRLF) are parsed back to exactly those sections
-    and the builder's verdict on the bytes is the section-level verdict - a machine exactly when every chain
-    adds up and the contig sizes are consistent. ([line_ok]: the printed lines contain no LF, do not end in CR
-    and are valid UTF-8, i.e. the contig names are.) *)
-Theorem C03_accepts_canonical : forall eol f, eol = [LF] \/ eol = [CR; LF] -> Forall sec_proper f -> Forall (line_ok eol) (file_lines f) ->
+(** Every canonical file is accepted: for every list of sections of the shape the iterator yields ([sec_proper]:
+    well-formed header, u64 values, non-terminating records then one terminating record) whose contig names
+    contain no LF and are valid UTF-8 ([sec_names_ok]), the bytes obtained by re-serialising them (header
+    line, data lines, blank line; LF or CRLF) are parsed back to exactly those sections, and the builder's
+    verdict on the bytes is the section-level verdict - a machine exactly when every chain adds up and the
+    contig sizes are consistent. *)
+Theorem C03_accepts_canonical : forall eol f, eol = [LF] \/ eol = [CR; LF] -> Forall sec_proper f -> Forall sec_names_ok f ->
   spec_sections None 0 (raw_reads (src_of_bytes (join_lines eol (file_lines f)))) = map Ok f /\
   build (src_of_bytes (join_lines eol (file_lines f))) = build_secs f.
-Proof. exact file_bytes_roundtrip. Qed.
+Proof. exact canonical_accepted. Qed.
 Print Assumptions C03_accepts_canonical.
 
 Example C03_nonvacuous : exists m, build_secs ex_file = Val (Ok m).
